@@ -250,7 +250,7 @@ func runC11(l *core.Ledger) {
 	for i, s := range sets {
 		k := fmt.Sprintf("%s/set%d", key, i)
 		node := sx.NodeOf(s.c)
-		onReply := sx.EdgeDominates(rl.fn, rl.recvEdge, node) && sx.InstrDominates(rl.fn, qf, node)
+		onReply := edgesDominate(rl.fn, rl.recvEdges(), node) && sx.InstrDominates(rl.fn, qf, node)
 		val, lvl, errv := s.c.Call.Args[1], s.c.Call.Args[2], s.c.Call.Args[3]
 		isNilErr := func() bool { c, ok := errv.(*ssa.Const); return ok && c.IsNil() }()
 		if !s.known {
@@ -498,6 +498,47 @@ func c11Set(l *core.Ledger, r *rt) {
 				fmt.Sprintf("level publication: guarded by watcher.level <= level: %v; slot cleared after close (else closed twice → panic): %v", guarded, cleared))
 		}
 	})
+	// the release loops must visit every element: inside a loop of set the
+	// watcher slice itself is not re-assigned, and elements are only written at
+	// the loop's own index (a loop that removes or moves elements while it
+	// iterates skips the element moved into the current slot)
+	okStable := true
+	sx.AllInstrs(fn, func(n sx.Node, in ssa.Instruction) {
+		st, ok := in.(*ssa.Store)
+		if !ok || !sx.InLoop(n) {
+			return
+		}
+		if _, is := isCorrField(st.Addr, "watchers"); is {
+			okStable = false
+			l.Bad("C11-K6", key+"/loop-mutates-slice", st.Pos(), "the watcher slice is re-assigned inside a release loop: elements moved or removed during the iteration are not examined against the level being published (a watcher at or below the level stays blocked)")
+			return
+		}
+		ia, isIA := st.Addr.(*ssa.IndexAddr)
+		if !isIA || !sx.All(sx.Origins(ia.X), sx.IsFieldNamed("watchers", sx.IsParam(recv))) {
+			return
+		}
+		// the index must be the loop's induction variable (a phi of the enclosing loop head, or its +1)
+		isInduction := func(v ssa.Value) bool {
+			for i := 0; i < 3; i++ {
+				switch x := v.(type) {
+				case *ssa.Phi:
+					return true
+				case *ssa.BinOp:
+					if c, isC := x.Y.(*ssa.Const); isC && x.Op == token.ADD && c.Value != nil && c.Value.String() == "1" {
+						v = x.X
+						continue
+					}
+				}
+				return false
+			}
+			return false
+		}
+		if !isInduction(ia.Index) {
+			okStable = false
+			l.Bad("C11-K6", key+"/loop-writes-other-slot", st.Pos(), "a release loop writes a watcher slot other than the one it is examining: elements are moved during the iteration and can be skipped")
+		}
+	})
+	_ = okStable
 	l.Check(nFinal >= 1 && nLevel >= 1 && okLoops, "C11-K6", key+"/watcher-loops", fn.Pos(), "both release loops present, no early exit",
 		fmt.Sprintf("watcher release loops: final=%d level=%d, all inside loops without early exit: %v", nFinal, nLevel, okLoops))
 
